@@ -311,12 +311,24 @@ def known_findings(pid):
 
 # ------------------------------------------------------------------ instrumentation (generated from the current sources)
 
-INSTRUMENT_FILES = [
-    "internal/progress/average.go", "internal/progress/stats.go",
-    "internal/workers/trigger_pool.go", "internal/workers/pool_manager.go", "internal/workers/continuous_pool.go",
-    "internal/raterun/runner.go", "internal/run/result.go", "internal/run/test_runner.go",
-    "internal/trigger/api/iteration_worker.go", "internal/trigger/file/stages_worker.go",
-]
+# every non-test Go file of these package directories is instrumented (so that code moved to a
+# new file of the package is still covered); sync-op listings are keyed by package directory
+INSTRUMENT_DIRS = ["internal/progress", "internal/workers", "internal/raterun", "internal/run",
+                   "internal/trigger/api", "internal/trigger/file"]
+
+
+def instrument_files():
+    out = []
+    for d in INSTRUMENT_DIRS:
+        for fn in sorted(os.listdir(os.path.join(REPO, d))):
+            if fn.endswith(".go") and not fn.endswith("_test.go") and not fn.startswith("zz_verif"):
+                out.append(os.path.join(d, fn))
+    return out
+
+
+def _pkg_of(key):
+    f = key.split("::", 1)[0]
+    return os.path.dirname(f) if f.endswith(".go") else f
 
 
 _FUNC_RE = re.compile(r"^func\s+(?:\([^)]*\)\s*)?([A-Za-z_]\w*)\s*[\(\[]", re.M)
@@ -335,7 +347,7 @@ def package_funcs(reldir):
 def instrument(scratch, files=None):
     """Builds tools/instrument, instruments the current /repo sources, returns
     (overlay dict, listing dict file -> text)."""
-    files = files or INSTRUMENT_FILES
+    files = files or instrument_files()
     tool = os.path.join(scratch, "instrument")
     if not os.path.exists(tool):
         rc, out = sh(["go", "build", "-o", tool, "."], cwd=os.path.join(VERIF, "tools", "instrument"), env=GOENV, timeout=300)
@@ -390,12 +402,12 @@ def flatten_syncops(raw, declared=None):
     by_pkg = {}
     for key in raw:
         f, fn = key.split("::", 1)
-        pkg = os.path.dirname(f)
+        pkg = _pkg_of(key)
         by_pkg.setdefault(pkg, {}).setdefault(fn.split(".")[-1] if not fn.endswith((".go", ".func")) else None, []).append(key)
 
     def resolve(key, op_expr):
         f, fn = key.split("::", 1)
-        pkg = os.path.dirname(f)
+        pkg = _pkg_of(key)
         segs = op_expr.split(".")
         m = segs[-1]
         if m in NOT_RESOLVED:
@@ -460,7 +472,7 @@ def flatten_syncops(raw, declared=None):
                 out.extend((prefix + x + suffix) if (prefix or suffix) else x for x in inner)
                 continue
             segs = op.split(".")
-            pkg = os.path.dirname(key.split("::", 1)[0])
+            pkg = _pkg_of(key)
             if segs[-1] in declared.get(pkg, ()) and segs[-1] not in NOT_RESOLVED and segs[-1] not in MODEL_CALLS \
                     and (segs[0] == "@" or len(segs) == 1) \
                     and not by_pkg.get(pkg, {}).get(segs[-1]):
@@ -488,7 +500,8 @@ def syncops_drift(listing, functions):
         for line in text.split("\n"):
             if ": " in line:
                 fn, ops = line.split(": ", 1)
-                current[f + "::" + fn] = ops.strip()
+                key = os.path.dirname(f) + "::" + fn
+                current[key] = (current[key] + " ; " if key in current else "") + ops.strip()
     decl_now = {}
     for f in listing:
         d = os.path.dirname(f)
